@@ -214,7 +214,8 @@ class Machine:
         # nothing may leak from one run into the next: the frame starts as junk, so a frame word that is read before it was
         # written yields the same wrong value on every run (and in the replay), not the previous case's data
         mem[lo_stack:sp0] = b"\xA5\x5A\xC3\x3C" * ((sp0 - lo_stack) // 4)
-        n = z = c = v = False
+        n = z = False
+        c = v = bool(getattr(self, "init_flags", False))      # flags at entry are whatever the caller left (not part of the ABI)
         code = self.p.routines[symbol]
         pc = 0
 
